@@ -171,6 +171,10 @@ static void apply(World &w, const Op &op) {
     const bool can_hand_over = heap_a && heap_b && std::is_same<PA::Alloc, PB::Alloc>::value &&
                                (unsigned long long)w.a().capacity() <= (unsigned long long)std::numeric_limits<B_ST>::max() &&
                                (unsigned long long)w.b().capacity() <= (unsigned long long)std::numeric_limits<A_ST>::max();
+    // C05: an inline SmallVector that exchanges with an operand holding no heap buffer and receives at most N elements
+    // stays inline, reports capacity N and requests no memory
+    const bool inl_a = PA::small && is_inline(w.a()) && (long)w.a().capacity() == PA::n, inl_b = PB::small && is_inline(w.b()) && (long)w.b().capacity() == PB::n;
+    const bool a_fits = sb <= (unsigned long long)w.a().capacity(), b_fits = sa <= (unsigned long long)w.b().capacity();  // nobody has to grow
     vf::L().reset_counters();
     rt::win([&] {
       if (op.k == SWAP2_AB) w.a().swap2(w.b());
@@ -182,6 +186,10 @@ static void apply(World &w, const Op &op) {
       if (rt::W().exc) vf::fail("C13", "swap2 of sizes %llu/%llu threw (kind %d) although the exchange is possible", sa, sb, rt::W().exc_kind);
       else {
         std::swap(w.ma, w.mb);
+        if (inl_a && !heap_b && (long)sb <= PA::n && (!is_inline(w.a()) || (long)w.a().capacity() != PA::n || (b_fits && rt::W().mallocs != 0)))
+          vf::fail("C05", "swap2 gave an inline SmallVector<%ld> %llu elements from an operand without heap buffer: inline %d capacity %ld heap requests %ld", PA::n, sb, (int)is_inline(w.a()), (long)w.a().capacity(), rt::W().mallocs);
+        if (inl_b && !heap_a && (long)sa <= PB::n && (!is_inline(w.b()) || (long)w.b().capacity() != PB::n || (a_fits && rt::W().mallocs != 0)))
+          vf::fail("C05", "swap2 gave an inline SmallVector<%ld> %llu elements from an operand without heap buffer: inline %d capacity %ld heap requests %ld", PB::n, sa, (int)is_inline(w.b()), (long)w.b().capacity(), rt::W().mallocs);
         if (can_hand_over) {
           if (w.a().data() != db || w.b().data() != da) vf::fail("C07", "swap2 of two heap-backed vectors did not hand over the buffers");
           else if (vf::L().elem_ops() != 0) vf::fail("C07", "swap2 of two heap-backed vectors performed %ld element operations", vf::L().elem_ops());
